@@ -221,6 +221,22 @@ ZeroOutcome(type, format) ==
                      IF info.class = "named" THEN (IF info.empty = <<>> THEN REJ ELSE OK(TextV(info.kind, <<>>), info.dyn))
                      ELSE IF info.empty = <<>> THEN REJ ELSE OK(TextV(info.kind, info.empty[1]), info.dyn)
 
+(* ------------------------------ characters ------------------------------ *)
+(* Number of characters of a text (utf8.RuneCountInString): a well-formed UTF-8 sequence (no overlong forms, no       *)
+(* surrogates, at most U+10FFFF) is one character, every other byte counts as one (replacement) character.            *)
+InRange(s, p, lo, hi) == p <= Len(s) /\ s[p] >= lo /\ s[p] <= hi
+ContByte(s, p) == InRange(s, p, 128, 191)
+RuneLen(s, p) ==
+  LET b == s[p] IN
+  IF b < 128 THEN 1
+  ELSE IF b >= 194 /\ b <= 223 /\ ContByte(s, p + 1) THEN 2
+  ELSE IF b >= 224 /\ b <= 239 /\ InRange(s, p + 1, IF b = 224 THEN 160 ELSE 128, IF b = 237 THEN 159 ELSE 191) /\ ContByte(s, p + 2) THEN 3
+  ELSE IF b >= 240 /\ b <= 244 /\ InRange(s, p + 1, IF b = 240 THEN 144 ELSE 128, IF b = 244 THEN 143 ELSE 191)
+          /\ ContByte(s, p + 2) /\ ContByte(s, p + 3) THEN 4
+  ELSE 1
+RECURSIVE RuneCount(_, _)
+RuneCount(s, p) == IF p > Len(s) THEN 0 ELSE 1 + RuneCount(s, p + RuneLen(s, p))
+
 (* ------------------------------ validations ----------------------------- *)
 NumNorm(v) == IF v.k = "int" THEN [neg |-> v.neg, D |-> StripTZ(v.mag), sci |-> Len(v.mag) - 1]
               ELSE [neg |-> v.neg, D |-> v.mag, sci |-> v.sci]
@@ -243,8 +259,8 @@ ScalarValid(vd, type, format, v) ==
          /\ vd.hasmin => LET c == NumCmp(v, BoundV(type, format, vd.min)) IN (IF vd.emin THEN c = "gt" ELSE c # "lt")
          /\ vd.hasmax => LET c == NumCmp(v, BoundV(type, format, vd.max)) IN (IF vd.emax THEN c = "lt" ELSE c # "gt")
     [] vd.k = "enum"  -> \E i \in DOMAIN vd.vals : ValSame(v, BoundV(type, format, vd.vals[i]))
-    [] vd.k = "len"   -> /\ vd.hasmin => Len(v.s) >= DecVal(Digits(vd.min))      \* ASCII texts: runes = bytes
-                         /\ vd.hasmax => Len(v.s) <= DecVal(Digits(vd.max))
+    [] vd.k = "len"   -> /\ vd.hasmin => RuneCount(v.s, 1) >= DecVal(Digits(vd.min))   \* minLength / maxLength count characters,
+                         /\ vd.hasmax => RuneCount(v.s, 1) <= DecVal(Digits(vd.max))   \* not bytes
     [] OTHER -> TRUE
 
 Validates(d, v) ==
